@@ -8,7 +8,7 @@ try:
     hooks_commits=json.load(open('/verif/hooks.json'))['source_commits']
 except Exception: pass
 m={"version":1,"setup_cmd":"./check setup",
- "hooks":{"guard":"XIPH_VORBIS_VERIF","enable":"harness build compiles /repo/lib/*.c with -DXIPH_VORBIS_VERIF (clang ASan+UBSan subset), see vlib.py VARIANTS","baseline_off_cmd":"cmake --build /repo/_build && ctest --test-dir /repo/_build -j8 --timeout 900","source_commits":hooks_commits,"add_only":True},
+ "hooks":{"guard":"XIPH_VORBIS_VERIF","enable":"harness build compiles /repo/lib/*.c with -DXIPH_VORBIS_VERIF (clang ASan+UBSan subset), see vlib.py VARIANTS","baseline_off_cmd":"(test -f /repo/_build/build.ninja || cmake -G Ninja -S /repo -B /repo/_build -DBUILD_TESTING=ON >/dev/null) && cmake --build /repo/_build && ctest --test-dir /repo/_build -j8 --timeout 900","source_commits":hooks_commits,"add_only":True},
  "engines":[{"name":"tlc","path":"/opt/veriftools/tla/tla2tools.jar","serves_properties":sorted(CHECKS),"kind_free_text":"TLC model checker: exhaustive checks of the TLA+ specs in /verif/spec, behaviour generation (-simulate), trace validation of ndjson traces recorded from the real library"}],
  "checks":[], "not_applicable":[], "notes":"see DESIGN.md; known_findings.json lists genuine defects (all repaired so far by fix: commits)"}
 for pid in ids:
